@@ -516,6 +516,14 @@ def t_batched(sess):
             for x in it_:
                 yield f(x)
 
+        def map(self, f, it_, chunksize=None):
+            return [f(x) for x in it_]
+
+        def imap_unordered(self, f, it_, chunksize=1):
+            # "the ordering of the results is arbitrary": completion order, here the reverse of the input order
+            for x in reversed(list(it_)):
+                yield f(x)
+
     calls = []
 
     def fake_index(orientations, system, bins=None):
@@ -568,4 +576,24 @@ def replay_batched(case):
                     problems.append(f"{n} snapshots, supplied pool: values differ")
             except Exception as e:  # noqa: BLE001
                 problems.append(f"{n} snapshots, supplied pool: {type(e).__name__}: {e}")
+
+        class LatePool:
+            """An externally supplied pool within multiprocessing.Pool's documented contract whose unordered results
+            arrive in completion order (last input first), as they may with real workers."""
+
+            def imap(self, f, it_, chunksize=1):
+                return [f(x) for x in it_]
+
+            def map(self, f, it_, chunksize=None):
+                return [f(x) for x in it_]
+
+            def imap_unordered(self, f, it_, chunksize=1):
+                return [f(x) for x in reversed(list(it_))]
+
+        try:
+            got = pydrex.diagnostics.misorientation_indices(stack, sysm, pool=LatePool())
+            if not np.allclose(got, want, rtol=0, atol=0):
+                problems.append(f"{n} snapshots, supplied pool with late completion: values not in snapshot order")
+        except Exception as e:  # noqa: BLE001
+            problems.append(f"{n} snapshots, supplied pool with late completion: {type(e).__name__}: {e}")
     return {"reproduced": bool(problems), "detail": problems[:5] or "batched values equal per-snapshot values"}
